@@ -78,6 +78,19 @@ class Helper:
             body = body[1:]
         if not body or len(body) > MAX_HELPER_STMTS:
             return
+        # closure factory: def inner(..): <single expression>; return inner
+        if len(body) == 2 and isinstance(body[0], ast.FunctionDef) and \
+                not body[0].decorator_list and isinstance(
+                    body[1], ast.Return) and isinstance(
+                        body[1].value, ast.Name) and \
+                body[1].value.id == body[0].name:
+            e = _single_expr(body[0])
+            if e is not None and not body[0].args.vararg and \
+                    not body[0].args.kwarg:
+                self.body = []
+                self.ret = ast.Lambda(args=clone(body[0].args), body=e)
+                self.kind = "expr"
+            return
         for n in _own_nodes(fn):
             if isinstance(n, (ast.Yield, ast.YieldFrom, ast.Await, ast.Global,
                               ast.Nonlocal, ast.FunctionDef, ast.ClassDef,
@@ -127,9 +140,52 @@ class Helper:
         return self.kind is not None
 
 
+def _single_expr(fn):
+    """the body of a small function as one expression, or None:
+    [x = e1; y = e2(x); ...] return e  /  if c: return a else: return b"""
+    body = [st for st in fn.body if not (
+        isinstance(st, ast.Expr) and isinstance(st.value, ast.Constant))]
+    if not body:
+        return None
+    env = {}
+
+    def sub(e):
+        return _Subst(env, {}).visit(clone(e))
+    for st in body[:-1]:
+        if isinstance(st, ast.Assign) and len(st.targets) == 1 and \
+                isinstance(st.targets[0], ast.Name) and \
+                st.targets[0].id not in env:
+            env[st.targets[0].id] = sub(st.value)
+        else:
+            # `if c: return a` followed by `return b`
+            if st is body[-2] and isinstance(st, ast.If) and \
+                    not st.orelse and len(st.body) == 1 and isinstance(
+                        st.body[0], ast.Return) and isinstance(
+                            body[-1], ast.Return):
+                return ast.IfExp(test=sub(st.test),
+                                 body=sub(st.body[0].value),
+                                 orelse=sub(body[-1].value))
+            return None
+    last = body[-1]
+    if isinstance(last, ast.Return) and last.value is not None:
+        return sub(last.value)
+    if isinstance(last, ast.If) and len(last.body) == 1 and \
+            len(last.orelse) == 1 and isinstance(
+                last.body[0], ast.Return) and isinstance(
+                    last.orelse[0], ast.Return):
+        return ast.IfExp(test=sub(last.test), body=sub(last.body[0].value),
+                         orelse=sub(last.orelse[0].value or ast.Constant(
+                             value=None)))
+    return None
+
+
 def _simple(expr):
     if isinstance(expr, (ast.Name, ast.Constant)):
         return True
+    if isinstance(expr, ast.Call) and isinstance(expr.func, ast.Name) and \
+            expr.func.id == "len" and len(expr.args) == 1 and \
+            not expr.keywords:
+        return _simple(expr.args[0])
     if isinstance(expr, ast.Attribute):
         return _simple(expr.value)
     if isinstance(expr, ast.Subscript):
@@ -634,10 +690,7 @@ def _local_lambdas(fn):
     nested = {}
     for st in fn.body:
         if isinstance(st, ast.FunctionDef) and not st.decorator_list:
-            body = [s for s in st.body if not (
-                isinstance(s, ast.Expr) and isinstance(s.value, ast.Constant))]
-            if len(body) == 1 and isinstance(body[0], ast.Return) and \
-                    body[0].value is not None and not st.args.vararg and \
+            if _single_expr(st) is not None and not st.args.vararg and \
                     not st.args.kwarg:
                 nested[st.name] = st
     if nested:
@@ -664,7 +717,7 @@ def _local_lambdas(fn):
                 return False
             if not all(in_container(u) for u in uses):
                 continue
-            body = [s for s in d.body if isinstance(s, ast.Return)][0].value
+            body = _single_expr(d)
             for u in uses:
                 lam = ast.Lambda(args=clone(d.args), body=clone(body))
                 _replace_node(fn, u, lam)
